@@ -428,7 +428,7 @@ def rule_signed_area_order(chk, db, cfgname):
 
     def is_zero(x):
         x = T.strip_copy(x)
-        return x.get('k') in ('int', 'float', 'lit', 'num') and str(x.get('v', x.get('val', ''))).strip('.0f') == ''
+        return x.get('k') in ('int', 'flt') and x.get('v') in (0, 0.0)
     n = 0
     seen = set()
     for f in db.functions.values():
